@@ -1,6 +1,244 @@
 import Driver.Tensor
 import Driver.OpsDwt
+import WaveletsVerif.Model.Dtcwt
+import WaveletsVerif.Gen.Dims
 namespace WV
 variable {α : Type} [Scalar α]
-def runDtcwt (op : String) (ps : List Int) (ts : List (Option (T α))) : Res α := .bad
+
+/-- `H×W×2` nested ↔ (re, im) -/
+def cplxOfL3 (x : List (List (List α))) : Cplx α :=
+  (x.map (·.map (·.getD 0 Scalar.zero)), x.map (·.map (·.getD 1 Scalar.zero)))
+def l3OfCplx (c : Cplx α) : List (List (List α)) :=
+  tab c.1.length fun i => tab c.1.width fun j => [get2 c.1 i j, get2 c.2 i j]
+
+/-- canonical `(N,C,6,H,W,2)` tensor ↔ per item, per channel, six complex bands -/
+def bandsOfT (t : T α) : List (List (List (Cplx α))) :=
+  t.l6.map fun item => item.map fun ch => ch.map cplxOfL3
+def tOfBands (b : List (List (List (Cplx α)))) : T α :=
+  ofL6 (b.map fun item => item.map fun ch => ch.map l3OfCplx)
+
+/-- `(N,C,6,H,W)` real and imaginary stacks ↔ bands -/
+def bandsOfRI (r i : T α) : List (List (List (Cplx α))) :=
+  (r.l5.zip i.l5).map fun (ri, ii) => (ri.zip ii).map fun (rc, ic) => rc.zip ic
+def riOfBands (b : List (List (List (Cplx α)))) : T α × T α :=
+  (ofL5 (b.map fun item => item.map fun ch => ch.map (·.1)),
+   ofL5 (b.map fun item => item.map fun ch => ch.map (·.2)))
+
+/-- axis permutation taking the canonical `(N,C,O,H,W,RI)` tensor to the layout the code
+produces for `(o_dim, ri_dim)`: the code's own `get_dimensions5` (translated) gives the two
+insertion points of `torch.stack` -/
+def layoutPerm (o_dim ri_dim : Int) : Option (List Nat) := do
+  let (o5, ri, _, _) ← Gen.get_dimensions5 o_dim ri_dim
+  if o5 < 0 ∨ 4 < o5 ∨ ri < 0 ∨ 5 < ri then none else
+  some ((layoutOf o5.toNat ri.toNat).map Ax.canon)
+
+def toLayout (o_dim ri_dim : Int) (t : T α) : Option (T α) := do
+  let p ← layoutPerm o_dim ri_dim
+  some (t.permute p)
+def fromLayout (o_dim ri_dim : Int) (t : T α) : Option (T α) := do
+  let p ← layoutPerm o_dim ri_dim
+  some (t.permute (invPerm p))
+
+/-- what the module reads as `(s.shape[h_dim], s.shape[w_dim])` through `get_dimensions6` -/
+def sizes6 (o_dim ri_dim : Int) (t : T α) : Option (Nat × Nat) := do
+  let (_, _, h, w) ← Gen.get_dimensions6 o_dim ri_dim
+  if h < 0 ∨ w < 0 then none else
+  some (t.shape.getD h.toNat 0, t.shape.getD w.toNat 0)
+
+/-- what `inv_j1` reads as `(highr.shape[h_dim], highr.shape[w_dim])` through `get_dimensions5`
+on the tensor with the real/imaginary axis removed -/
+def sizes5 (o_dim ri_dim : Int) (t : T α) : Option (Nat × Nat) := do
+  let (_, ri, h, w) ← Gen.get_dimensions5 o_dim ri_dim
+  if h < 0 ∨ w < 0 ∨ ri < 0 then none else
+  let sh5 := t.shape.eraseIdx ri.toNat
+  some (sh5.getD h.toNat 0, sh5.getD w.toNat 0)
+
+def boolOf (i : Int) : Bool := i ≠ 0
+def bits (mask : Int) (n : Nat) : List Bool := (List.range n).map fun j => (mask.toNat / 2^j) % 2 = 1
+
+def mapImg4 (x : T α) (f : Img α → Option (Img α)) : Option (T α) := do
+  let y ← x.l4.mapM fun item => item.mapM f
+  some (ofL4 y)
+
+def optT (o : Option (T α)) : Option (List (List (Img α))) := o.map (·.l4)
+
+def runDtcwt (op : String) (ps : List Int) (ts : List (Option (T α))) : Res α :=
+  let s : α := Scalar.s
+  match op, ps, ts with
+  | "colfilter", [sym], [some w, some x] => resOfOpt do
+      some [some (← mapImg4 x fun im => some (colfilter (boolOf sym) w.l1 im))]
+  | "rowfilter", [sym], [some w, some x] => resOfOpt do
+      some [some (← mapImg4 x fun im => some (rowfilter (boolOf sym) w.l1 im))]
+  | "coldfilt", [hp], [some ha, some hb, some x] => resOfOpt do
+      some [some (← mapImg4 x (coldfilt ha.l1 hb.l1 (boolOf hp)))]
+  | "rowdfilt", [hp], [some ha, some hb, some x] => resOfOpt do
+      some [some (← mapImg4 x (rowdfilt ha.l1 hb.l1 (boolOf hp)))]
+  | "colifilt", [hp], [some ha, some hb, some x] => resOfOpt do
+      some [some (← mapImg4 x (colifilt ha.l1 hb.l1 (boolOf hp)))]
+  | "rowifilt", [hp], [some ha, some hb, some x] => resOfOpt do
+      some [some (← mapImg4 x (rowifilt ha.l1 hb.l1 (boolOf hp)))]
+  | "q2c", [], [some y] =>
+      let r := y.l4.map fun item => item.map fun im => q2c s im
+      .ok [some (ofL4 (r.map (·.map (·.1.1)))), some (ofL4 (r.map (·.map (·.1.2)))),
+           some (ofL4 (r.map (·.map (·.2.1)))), some (ofL4 (r.map (·.map (·.2.2))))]
+  | "c2q", [], [some w1r, some w1i, some w2r, some w2i] =>
+      let n := w1r.l4.length
+      .ok [some (ofL4 ((List.range n).map fun a =>
+        let ir := w1r.l4.getD a []
+        (List.range ir.length).map fun c =>
+          c2q s (ir.getD c [], (w1i.l4.getD a []).getD c []) ((w2r.l4.getD a []).getD c [], (w2i.l4.getD a []).getD c [])))]
+  | "fwd_j1", [sym, skip], [some h0, some h1, some x] =>
+      let r := x.l4.map fun item => item.map fun im => fwdJ1 s (boolOf sym) h0.l1 h1.l1 (boolOf skip) im
+      let ll := ofL4 (r.map (·.map (·.1)))
+      if boolOf skip then .ok [some ll, none, none] else
+      let (re, im) := riOfBands (r.map (·.map fun p => p.2.getD []))
+      .ok [some ll, some re, some im]
+  | "fwd_j1_rot", [sym, skip], [some h0, some h1, some h2, some x] =>
+      let r := x.l4.map fun item => item.map fun im => fwdJ1Rot s (boolOf sym) h0.l1 h1.l1 h2.l1 (boolOf skip) im
+      let ll := ofL4 (r.map (·.map (·.1)))
+      if boolOf skip then .ok [some ll, none, none] else
+      let (re, im) := riOfBands (r.map (·.map fun p => p.2.getD []))
+      .ok [some ll, some re, some im]
+  | "fwd_j2plus", [skip], [some h0a, some h1a, some h0b, some h1b, some x] => resOfOpt do
+      let r ← x.l4.mapM fun item => item.mapM fun im => fwdJ2 s h0a.l1 h1a.l1 h0b.l1 h1b.l1 (boolOf skip) im
+      let ll := ofL4 (r.map (·.map (·.1)))
+      if boolOf skip then some [some ll, none, none] else
+      let (re, im) := riOfBands (r.map (·.map fun p => p.2.getD []))
+      some [some ll, some re, some im]
+  | "fwd_j2plus_rot", [skip], [some h0a, some h1a, some h0b, some h1b, some h2a, some h2b, some x] => resOfOpt do
+      let r ← x.l4.mapM fun item => item.mapM fun im =>
+        fwdJ2Rot s h0a.l1 h1a.l1 h0b.l1 h1b.l1 h2a.l1 h2b.l1 (boolOf skip) im
+      let ll := ofL4 (r.map (·.map (·.1)))
+      if boolOf skip then some [some ll, none, none] else
+      let (re, im) := riOfBands (r.map (·.map fun p => p.2.getD []))
+      some [some ll, some re, some im]
+  | "inv_j1", [sym], [some g0, some g1, ll, hr, hi] => resOfOpt do
+      -- batch/channel structure from whichever input is present
+      let bands := match hr, hi with
+        | some r, some i => some (bandsOfRI r i)
+        | _, _ => none
+      let n := match ll, bands with
+        | some l, _ => l.l4.length
+        | none, some b => b.length
+        | none, none => 0
+      let y ← (List.range n).mapM fun a => do
+        let lch := ll.map fun l => l.l4.getD a []
+        let bch := bands.map fun b => b.getD a []
+        let c := match lch, bch with
+          | some l, _ => l.length
+          | none, some b => b.length
+          | none, none => 0
+        (List.range c).mapM fun k =>
+          let o := bch.map fun b => b.getD k []
+          invJ1 s (boolOf sym) g0.l1 g1.l1 ((o.map bandSize).getD (0,0)) (lch.map fun l => l.getD k []) o
+      some [some (ofL4 y)]
+  | "inv_j1_rot", [sym], [some g0, some g1, some g2, ll, hr, hi] => resOfOpt do
+      let bands := match hr, hi with
+        | some r, some i => some (bandsOfRI r i)
+        | _, _ => none
+      let n := match ll, bands with
+        | some l, _ => l.l4.length
+        | none, some b => b.length
+        | none, none => 0
+      let y ← (List.range n).mapM fun a => do
+        let lch := ll.map fun l => l.l4.getD a []
+        let bch := bands.map fun b => b.getD a []
+        let c := match lch, bch with
+          | some l, _ => l.length
+          | none, some b => b.length
+          | none, none => 0
+        (List.range c).mapM fun k =>
+          let o := bch.map fun b => b.getD k []
+          invJ1Rot s (boolOf sym) g0.l1 g1.l1 g2.l1 ((o.map bandSize).getD (0,0)) (lch.map fun l => l.getD k []) o
+      some [some (ofL4 y)]
+  | "inv_j2plus", [], [some g0a, some g1a, some g0b, some g1b, ll, hr, hi] => resOfOpt do
+      let bands := match hr, hi with
+        | some r, some i => some (bandsOfRI r i)
+        | _, _ => none
+      let n := match ll, bands with
+        | some l, _ => l.l4.length
+        | none, some b => b.length
+        | none, none => 0
+      let y ← (List.range n).mapM fun a => do
+        let lch := ll.map fun l => l.l4.getD a []
+        let bch := bands.map fun b => b.getD a []
+        let c := match lch, bch with
+          | some l, _ => l.length
+          | none, some b => b.length
+          | none, none => 0
+        (List.range c).mapM fun k =>
+          invJ2 s g0a.l1 g1a.l1 g0b.l1 g1b.l1 (lch.map fun l => l.getD k []) (bch.map fun b => b.getD k [])
+      some [some (ofL4 y)]
+  | "inv_j2plus_rot", [], [some g0a, some g1a, some g0b, some g1b, some g2a, some g2b, ll, hr, hi] => resOfOpt do
+      let bands := match hr, hi with
+        | some r, some i => some (bandsOfRI r i)
+        | _, _ => none
+      let n := match ll, bands with
+        | some l, _ => l.l4.length
+        | none, some b => b.length
+        | none, none => 0
+      let y ← (List.range n).mapM fun a => do
+        let lch := ll.map fun l => l.l4.getD a []
+        let bch := bands.map fun b => b.getD a []
+        let c := match lch, bch with
+          | some l, _ => l.length
+          | none, some b => b.length
+          | none, none => 0
+        (List.range c).mapM fun k =>
+          invJ2Rot s g0a.l1 g1a.l1 g0b.l1 g1b.l1 g2a.l1 g2b.l1 (lch.map fun l => l.getD k []) (bch.map fun b => b.getD k [])
+      some [some (ofL4 y)]
+  /- DTCWTForward o_dim ri_dim sym J skipmask inclmask | h0o h1o h0a h0b h1a h1b (raw) | x -/
+  | "DTCWTForward", [o, ri, sym, J, skm, inm], [some h0o, some h1o, some h0a, some h0b, some h1a, some h1b, some x] =>
+    resOfOpt do
+      if o % 6 = ri % 6 ∧ o = ri then none   -- the constructor raises only when o_dim == ri_dim literally
+      let f : FwdFilters α := ⟨prepFilt h0o.l1, prepFilt h1o.l1, prepFilt h0a.l1, prepFilt h0b.l1, prepFilt h1a.l1, prepFilt h1b.l1⟩
+      let skips := bits skm J.toNat
+      let incl := bits inm J.toNat
+      let r ← x.l4.mapM fun item => item.mapM fun im => DTCWTForward s (boolOf sym) f skips incl im
+      let lows := ofL4 (r.map (·.map (·.1)))
+      let highs ← (List.range J.toNat).mapM fun j =>
+        if skips.getD j false then some none else do
+          let t := tOfBands (r.map (·.map fun p => (p.2.1.getD j none).getD []))
+          let t' ← toLayout o ri t
+          some (some t')
+      if incl.any id then
+        let scales := (List.range J.toNat).map fun j =>
+          if incl.getD j false then some (ofL4 (r.map (·.map fun p => (p.2.2.getD j none).getD []))) else none
+        some (scales ++ highs)
+      else some (some lows :: highs)
+  /- DTCWTInverse o_dim ri_dim sym | g0o g1o g0a g0b g1a g1b (raw) | low|none | highs_1.. (in layout) -/
+  | "DTCWTInverse", [o, ri, sym], some g0o :: some g1o :: some g0a :: some g0b :: some g1a :: some g1b :: low :: highs =>
+    resOfOpt do
+      let f : InvFilters α := ⟨prepFilt g0o.l1, prepFilt g1o.l1, prepFilt g0a.l1, prepFilt g0b.l1, prepFilt g1a.l1, prepFilt g1b.l1⟩
+      -- the module asserts shape[o_dim] == 6, 6 dims, shape[ri_dim] == 2 for levels ≥ 2
+      let okShape := (highs.drop 1).all fun h => match h with
+        | none => true
+        | some t => t.shape.length == 6 &&
+            t.shape.getD ((o % 6).toNat) 0 == 6 && t.shape.getD ((ri % 6).toNat) 0 == 2
+      if !okShape then none
+      let sz6 ← highs.mapM fun h => match h with
+        | none => some (0, 0)
+        | some t => sizes6 o ri t
+      let sz5 ← (match highs.head? with
+        | some (some t) => sizes5 o ri t
+        | _ => some (0, 0))
+      let canon ← highs.mapM fun h => match h with
+        | none => some none
+        | some t => do let c ← fromLayout o ri t; some (some (bandsOfT c))
+      let n := match low, canon.filterMap id with
+        | some l, _ => l.l4.length
+        | none, b :: _ => b.length
+        | none, [] => 0
+      let y ← (List.range n).mapM fun a => do
+        let lch := low.map fun l => l.l4.getD a []
+        let c := match lch, canon.filterMap id with
+          | some l, _ => l.length
+          | none, b :: _ => (b.getD a []).length
+          | none, [] => 0
+        (List.range c).mapM fun k =>
+          DTCWTInverse s (boolOf sym) f sz6 sz5 (lch.map fun l => l.getD k [])
+            (canon.map fun ob => ob.map fun b => (b.getD a []).getD k [])
+      some [some (ofL4 y)]
+  | _, _, _ => .bad
+
 end WV
